@@ -219,10 +219,25 @@ def validate_trace(tspec, tcfg, trace, nthreads=None, timeout=600, metaname=None
     hdr["e"] = "Header"
     if nthreads is not None:
         hdr["nt"] = nthreads
+    # a driver that crashed or was killed while dumping (two threads crashing at once, SIGKILL at the outer timeout) can
+    # leave a torn last line: cut the trace at the first line that is not a JSON object - the run is judged by its exit
+    # code anyway, the validation of the prefix only says where the execution left the spec
+    lines, torn = [], 0
+    for ln in body.splitlines():
+        if not ln.strip():
+            continue
+        try:
+            if not isinstance(json.loads(ln), dict):
+                raise ValueError
+        except ValueError:
+            torn = 1
+            break
+        lines.append(ln)
     with open(path, "w") as f:
         f.write(json.dumps(hdr) + "\n")
-        f.write(body)
+        f.write("\n".join(lines) + ("\n" if lines else ""))
     r = tlc(tspec, tcfg, workers=1, timeout=timeout, env={"TRACE": path}, dfs=True, metaname=metaname)
+    r.torn = torn
     if r.timeout:
         raise Broken("trace validation timed out (%s)" % trace)
     if r.rc != 0 and r.violated is None and not r.accepted:
